@@ -98,7 +98,9 @@ NOTES["C05"] = dict(
 NOTES["C11"] = dict(
     text=("Lean theorems over an arbitrary field, any weight: every row update of SOR/SSOR and of the distributed hybrid sweeps equals the textbook "
           "formula; a full forward/backward sweep satisfies the Gauss-Seidel/SOR recurrence (new values before i, old after i, halo frozen); the "
-          "sweeps (any number) leave x unchanged iff A x = b (sorForward_fixed_iff); Jacobi likewise. The executable model reproduces the real "
+          "sweeps (any number) leave x unchanged iff A x = b (sorForward_fixed_iff); Jacobi likewise; the distributed Jacobi sweep equals the "
+          "sequential Jacobi sweep of the global matrix row by row for every partition, any maps and any storage order when the halo holds the "
+          "owners' old values (Props/C11Par.lean: hybridJacobi_eq_global). The executable model reproduces the real "
           "sequential and distributed routines at double precision (same operation order) on every generated system/layout/weight, the "
           "right-hand side is compared bit for bit before/after, and the diagonal-first layout established by the distributed routines is checked."),
     note="Partial: rounding (exact field in the theorems, 1e-10 relative tolerance in the runs).",
